@@ -8,7 +8,7 @@ From KVBridge Require Import BridgeLib.
 Import ListNotations.
 
 Tactic Notation "ds_unfold" reference(g) :=
-  cbv beta iota zeta delta [g KV.Dash.step KV.Dash.next_ix KV.Dash.push_stash
+  cbv beta iota zeta delta [g KV.Dash.fx_needinput KV.Dash.next_ix KV.Dash.push_stash
     KV.Dash.is_ToStash KV.Dash.is_Working KV.Dash.is_NeedInput KV.Dash.is_nil KV.Dash.fx_order KV.Dash.fixes_all
     KV.Dash.set_inner KV.Dash.set_input_done KV.Dash.set_closepath_pending KV.Dash.set_dash_ix KV.Dash.set_is_active
     KV.Dash.set_state KV.Dash.set_current_seg KV.Dash.set_cur_t KV.Dash.set_dash_remaining KV.Dash.set_seg_remaining
@@ -20,5 +20,23 @@ Tactic Notation "ds_unfold" reference(g) :=
 Lemma br_dash_step : forall (T : Type) (S : Scalar T) (arclen_ : (PathSeg T) -> T) (inv_arclen_ : (PathSeg T) -> T -> T) (dashes_ : list T) (init_ : KV.Dash.Phase T) (self_ : (KV.Dash.DS T)), Gen.dash_step arclen_ inv_arclen_ dashes_ init_ self_ = KV.Dash.step arclen_ inv_arclen_ KV.Dash.fixes_all dashes_ init_ self_.
 Proof.
   intros T S al ial ds init [inn idn cpp dix act st seg t dr sr sp lp sh six].
-  destruct st; destruct sh; destruct act; ds_unfold Gen.dash_step; br_ifs; ds_unfold f0; reflexivity.
+  unfold KV.Dash.step. destruct st; destruct sh; destruct act; ds_unfold Gen.dash_step; br_ifs; ds_unfold f0; reflexivity.
+Qed.
+
+(** One iteration of the [loop] of [DashIterator::next] is the model's [tick] (simulation: the model's
+    [TDone] drops the state, so only the result is compared there). *)
+Lemma br_dash_next_body : forall (T : Type) (S : Scalar T) (arclen_ : (PathSeg T) -> T) (inv_arclen_ : (PathSeg T) -> T -> T) (dashes_ : list T) (init_ : KV.Dash.Phase T) (self_ : (KV.Dash.DS T)), match KV.Dash.tick arclen_ inv_arclen_ KV.Dash.fixes_all dashes_ init_ self_ with KV.Dash.TDone => fst (Gen.dash_next_body arclen_ inv_arclen_ dashes_ init_ self_) = Some None | KV.Dash.TCont tr_s => (Gen.dash_next_body arclen_ inv_arclen_ dashes_ init_ self_) = (None, tr_s) | KV.Dash.TEmit tr_e tr_s => (Gen.dash_next_body arclen_ inv_arclen_ dashes_ init_ self_) = (Some (Some tr_e), tr_s) end.
+Proof.
+  intros T S al ial ds init [inn idn cpp dix act st seg t dr sr sp lp sh six].
+  unfold KV.Dash.tick. destruct st; ds_unfold Gen.dash_next_body.
+  - destruct idn; [reflexivity|].
+    match goal with |- context [get_input ?a ?b ?c ?d] => set (gi := get_input a b c d) end.
+    destruct gi as [inn' idn' cpp' dix' act' st' seg' t' dr' sr' sp' lp' sh' six'].
+    ds_unfold f0. destruct idn'; [reflexivity|]. destruct st'; reflexivity.
+  - match goal with |- context [step ?a ?b ?c ?d ?e ?f] => set (sr0 := step a b c d e f) end.
+    destruct sr0 as [[el|] [inn' idn' cpp' dix' act' st' seg' t' dr' sr' sp' lp' sh' six']]; ds_unfold f0; reflexivity.
+  - match goal with |- context [step ?a ?b ?c ?d ?e ?f] => set (sr0 := step a b c d e f) end.
+    destruct sr0 as [[el|] [inn' idn' cpp' dix' act' st' seg' t' dr' sr' sp' lp' sh' six']]; ds_unfold f0; reflexivity.
+  - destruct (nth_error sh six) as [el|]; ds_unfold f0; [reflexivity|].
+    destruct idn; [reflexivity|]. destruct cpp; reflexivity.
 Qed.
